@@ -10,6 +10,12 @@ def apply(b, kw):
     op = b[0]
     if op == "inc":
         return kw[b[1]] + 1
+    if op in ("reseed", "reseed_inc"):
+        # a body that re-seeds the process-global PRNG with a constant (reproducible sampling inside a node)
+        import random
+
+        random.seed(1234)
+        return kw[b[1]] + 1 if op == "reseed_inc" else ("seeded", kw[b[1]])
     if op == "addc":
         return kw[b[1]] + b[2]
     if op == "append":
